@@ -136,6 +136,21 @@ def catalogue(tier):
     cat.append(("AppMode", [{}, {"modes": ["dev", "test"]}, {"create_helpers": False, "modes": ["dev", "a-b"]},
                             {"required": True}], mv + WRONG))
     cat.append(("Any", [{}, {"required": True}], WRONG + ["x", [1, "a"], D(("k", [1]))]))
+    # a pass-through custom validator attached: it must be handed (and must hand back) the normal form
+    iv = {"validator": "identity"}
+    cat.append(("Int", [dict(iv), dict(iv, min=0, max=9), dict(iv, required=True)], ints + WRONG))
+    cat.append(("Float", [dict(iv, max=10)], fl + WRONG))
+    cat.append(("Str", [dict(iv, transform_case="lower", transform_strip=True, max_len=3), dict(iv, transform_strip="x", min_len=1), dict(iv, choices=["a", "abc"], transform_case="lower")],
+                STR_VALUES + WRONG))
+    cat.append(("Bool", [dict(iv)], bv + WRONG))
+    cat.append(("Bytes", [dict(iv, encoding="hex"), dict(iv)], bytev + WRONG))
+    cat.append(("IPv4", [dict(iv, transform_strip=True)], ipv + WRONG))
+    cat.append(("Net", [dict(iv, min_prefix_len=8)], netv + WRONG))
+    cat.append(("Host", [dict(iv, transform_case="lower", transform_strip=True), dict(iv, resolve=True)], hostv + WRONG))
+    cat.append(("Url", [dict(iv, transform_strip=True)], urlv + WRONG))
+    cat.append(("LogLevel", [dict(iv)], lv + WRONG))
+    cat.append(("Challenge", [dict(iv, hash_algorithm="md5")], chv + WRONG))
+    cat.append(("Secure", [dict(iv, method="xor")], secv + WRONG))
     return cat
 
 
@@ -175,11 +190,14 @@ def container_catalogue(tier):
                 lvals.append({"$": "sibling-list", "items": src})
         for req in (None, True):
             out.append(("List[%s]" % name, {"k": "List", "item": specs[name], "o": _clean({"required": req})}, lvals))
+        out.append(("List[%s]@v" % name, {"k": "List", "item": specs[name], "o": {"validator": "identity"}}, lvals))
         dvals = [D()] + [D(("k", v)) for v in vals] + [D(("k", vals[0]), (" K2 ", vals[1]))] + WRONG
         for req in (None, True):
             out.append(("Dict[Str,%s]" % name,
                         {"k": "Dict", "key": {"k": "Str", "o": {"transform_strip": True}} if name is not None else None,
                          "val": specs[name], "o": _clean({"required": req})}, dvals))
+        out.append(("Dict[Str,%s]@v" % name, {"k": "Dict", "key": {"k": "Str", "o": {"transform_strip": True}} if name is not None else None,
+                                              "val": specs[name], "o": {"validator": "identity"}}, dvals))
     # key fields whose on-disk form is a string (bytes as hex / base64) stay inside the formats' string-keyed domain
     for enc in ("hex", "base64"):
         kspec = {"k": "Bytes", "o": {"encoding": enc}}
@@ -203,9 +221,9 @@ def jobs(tier):
         for c in range(n):
             chunk = opts[c::n]
             if chunk:
-                out.append({"name": "%s/%02d" % (kind, c), "kind": kind, "opts": chunk, "vals": vals})
+                out.append({"name": "%s%s/%02d" % (kind, "@v" if chunk[0].get("validator") else "", c), "kind": kind, "opts": chunk, "vals": vals})
     for name, spec, vals in container_catalogue(tier):
-        out.append({"name": "%s/%s" % (name, "req" if spec["o"].get("required") else "opt"), "spec": spec, "vals": vals})
+        out.append({"name": "%s/%s" % (name, "req" if spec["o"].get("required") else ("v" if spec["o"].get("validator") else "opt")), "spec": spec, "vals": vals})
     for itemkind in ("schema", "ctype"):
         out.append({"name": "List[%s-with-encoded-fields]" % itemkind, "cfgitems": itemkind})
     return out
